@@ -9,14 +9,15 @@ Open Scope N_scope.
 Section C06.
   Variable hasher_ok : N -> bool.
   Variable hash : N -> bytes -> bytes.     (* arbitrary: no collision-freedom, no length law *)
-  Variable codecs : N -> option codec.
+  Variable encoders : N -> option codec.
+  Variable decoders : N -> option codec.
 
   Notation verify := (verify hash).
   Notation load_raw := (load_raw hasher_ok hash).
-  Notation fill := (fill hasher_ok hash codecs).
-  Notation load_plus_raw := (load_plus_raw hasher_ok hash codecs).
-  Notation load_any := (load_any hasher_ok hash codecs).
-  Notation store := (store hasher_ok hash codecs).
+  Notation fill := (fill hasher_ok hash decoders).
+  Notation load_plus_raw := (load_plus_raw hasher_ok hash decoders).
+  Notation load_any := (load_any hasher_ok hash decoders).
+  Notation store := (store hasher_ok hash encoders).
 
   (* -------------------------------------------------------------- LoadRaw: no codec law needed *)
 
@@ -34,11 +35,11 @@ Section C06.
   Lemma load_plus_raw_ok ro l :
     lo_status (load_plus_raw ro l) = SOk ->
     exists chunks c n p e, ro = RStream chunks TEof /\ verify l (concat chunks) = VOk /\
-      codecs (lp_codec (link_proto l)) = Some c /\ c_dec c (concat chunks) = Some (n, p, e) /\
+      decoders (lp_codec (link_proto l)) = Some c /\ c_dec c (concat chunks) = Some (n, p, e) /\
       load_plus_raw ro l = {| lo_status := SOk; lo_node := Some n; lo_raw := Some (concat chunks) |}.
   Proof.
     unfold LinkSys.load_plus_raw.
-    destruct (codecs _) as [c|] eqn:C; [|discriminate].
+    destruct (decoders _) as [c|] eqn:C; [|discriminate].
     destruct (lo_status (load_raw ro l)) eqn:S.
     - destruct (load_raw_ok ro l S) as (chunks & -> & V & E). rewrite E. cbn [lo_raw lo_status].
       destruct (c_dec c (concat chunks)) as [[[n p] e]|] eqn:D; [|discriminate].
@@ -49,16 +50,16 @@ Section C06.
 
   (* -------------------------------------------------------------- Fill needs the codec law *)
 
-  Hypothesis Hlaw : registry_consumes_all codecs.
+  Hypothesis Hlaw : registry_consumes_all decoders.
 
   Lemma fill_ok ro l :
     lo_status (fill false ro l) = SOk ->
     exists chunks c n p e, ro = RStream chunks TEof /\ verify l (concat chunks) = VOk /\
-      codecs (lp_codec (link_proto l)) = Some c /\ c_dec c (concat chunks) = Some (n, p, e) /\
+      decoders (lp_codec (link_proto l)) = Some c /\ c_dec c (concat chunks) = Some (n, p, e) /\
       fill false ro l = {| lo_status := SOk; lo_node := Some n; lo_raw := None |}.
   Proof.
     unfold LinkSys.fill.
-    destruct (codecs _) as [c|] eqn:C; [|discriminate].
+    destruct (decoders _) as [c|] eqn:C; [|discriminate].
     destruct (negb (hasher_ok _)); [discriminate|].
     destruct ro as [|chunks t]; [discriminate|].
     unfold stream_dec.
@@ -78,7 +79,7 @@ Section C06.
       ro = RStream chunks TEof /\
       verify l (concat chunks) = VOk /\
       (forall n, lo_node (load_any f false ro l) = Some n ->
-         exists c p e, codecs (lp_codec (link_proto l)) = Some c /\ c_dec c (concat chunks) = Some (n, p, e)) /\
+         exists c p e, decoders (lp_codec (link_proto l)) = Some c /\ c_dec c (concat chunks) = Some (n, p, e)) /\
       (forall raw, lo_raw (load_any f false ro l) = Some raw -> raw = concat chunks).
   Proof.
     destruct f; cbn [LinkSys.load_any]; intros S.
@@ -122,7 +123,7 @@ Section C06.
      level, every load form reports the hash mismatch — whether the decoder would fail early,
      succeed, or run past the item *)
   Theorem precedence f chunks l c :
-    codecs (lp_codec (link_proto l)) = Some c ->
+    decoders (lp_codec (link_proto l)) = Some c ->
     hasher_ok (lp_mhtype (link_proto l)) = true ->
     verify l (concat chunks) = VMismatch ->
     load_any f false (RStream chunks TEof) l = lfail EHashMismatch.
@@ -141,7 +142,7 @@ Section C06.
 
   (* the same for a block on which BuildLink panics (digest longer than the hash output) *)
   Lemma precedence_panic f chunks l c :
-    codecs (lp_codec (link_proto l)) = Some c ->
+    decoders (lp_codec (link_proto l)) = Some c ->
     hasher_ok (lp_mhtype (link_proto l)) = true ->
     verify l (concat chunks) = VPanic ->
     load_any f false (RStream chunks TEof) l = lpanic.
@@ -161,7 +162,7 @@ Section C06.
   (* C06_io: an open error or a read error anywhere in the stream never yields Ok, a node or bytes;
      untrusted loads report exactly the open / I/O error *)
   Theorem io_open f trusted l c :
-    codecs (lp_codec (link_proto l)) = Some c ->
+    decoders (lp_codec (link_proto l)) = Some c ->
     hasher_ok (lp_mhtype (link_proto l)) = true ->
     load_any f trusted ROpenErr l = lfail EOpen.
   Proof.
@@ -170,7 +171,7 @@ Section C06.
   Qed.
 
   Theorem io_read f chunks l c :
-    codecs (lp_codec (link_proto l)) = Some c ->
+    decoders (lp_codec (link_proto l)) = Some c ->
     hasher_ok (lp_mhtype (link_proto l)) = true ->
     load_any f false (RStream chunks TErr) l = lfail EIo.
   Proof.
@@ -193,7 +194,7 @@ Section C06.
     intros Hro o. subst o.
     assert (F : forall tr, let o := fill tr ro l in lo_status o <> SOk /\ lo_node o = None /\ lo_raw o = None).
     { intros tr. unfold LinkSys.fill.
-      destruct (codecs _) as [c|] eqn:C; [|cbn; repeat split; discriminate].
+      destruct (decoders _) as [c|] eqn:C; [|cbn; repeat split; discriminate].
       destruct (negb (hasher_ok _)); [cbn; repeat split; discriminate|].
       destruct Hro as [->|(chunks & ->)]; [cbn; repeat split; discriminate|].
       unfold stream_dec.
@@ -204,7 +205,7 @@ Section C06.
     { unfold LinkSys.load_raw. destruct (negb (hasher_ok _)); [cbn; repeat split; discriminate|].
       destruct Hro as [->|(chunks & ->)]; cbn; repeat split; discriminate. }
     destruct f; cbn [LinkSys.load_any]; auto.
-    unfold LinkSys.load_plus_raw. destruct (codecs _); [|cbn; repeat split; discriminate].
+    unfold LinkSys.load_plus_raw. destruct (decoders _); [|cbn; repeat split; discriminate].
     destruct R as (R1 & R2 & R3). cbv zeta in *.
     destruct (lo_status (load_raw ro l)) eqn:S; [contradiction| |]; rewrite ?S; auto.
   Qed.
@@ -212,50 +213,121 @@ Section C06.
   (* -------------------------------------------------------------- store side *)
 
   (* C06_store_atomic: a store that does not report success leaves the storage as it was *)
-  Theorem store_atomic sk w st lp v s st' :
-    store sk w st lp v = (s, st') -> so_status s <> SOk -> st' = st.
+  Theorem store_atomic latch sk w st lp v s st' :
+    store latch sk w st lp v = (s, st') -> so_status s <> SOk -> st' = st.
   Proof.
     unfold LinkSys.store.
-    destruct (codecs _) as [c|]; [|intros E; inversion E; auto].
+    destruct (encoders _) as [c|]; [|intros E; inversion E; auto].
     destruct (negb (hasher_ok _)); [intros E; inversion E; auto|].
     destruct (w_open_err w); [intros E; inversion E; auto|].
     destruct (c_enc c v) as [chunks|]; [|intros E; inversion E; auto].
-    destruct (accept (w_cap w) 0 chunks) as [acc failed].
-    destruct (failed && negb (c_werr_ignored c)); [intros E; inversion E; auto|].
+    destruct (write_all _ _ _ _ _ _ _ _) as [[[wr hs] ee] la].
+    destruct (ee || (latch && la)); [intros E; inversion E; auto|].
     destruct (build_link _ _); [|intros E; inversion E; auto].
     destruct (w_commit_err w); intros E; inversion E; subst; auto.
     cbn. intros N; contradiction N; reflexivity.
   Qed.
 
   (* ... in particular when the encoder refuses the value *)
-  Corollary store_encode_error sk w st lp v c :
-    codecs (lp_codec lp) = Some c -> hasher_ok (lp_mhtype lp) = true -> w_open_err w = false ->
-    c_enc c v = None -> store sk w st lp v = (sfail EEncode, st).
+  Corollary store_encode_error latch sk w st lp v c :
+    encoders (lp_codec lp) = Some c -> hasher_ok (lp_mhtype lp) = true -> w_open_err w = false ->
+    c_enc c v = None -> store latch sk w st lp v = (sfail EEncode, st).
   Proof. intros C H O E. unfold LinkSys.store. now rewrite C, H, O, E. Qed.
 
-  (* a writer that runs out of capacity during the encoder's output fails *)
-  Lemma accept_overflow k used chunks :
-    used <= k -> k < used + lenN (concat chunks) -> snd (accept (Some k) used chunks) = true.
+  (* With the write-error latch in Store, or with an encoder that reports failed writes: whatever
+     the storage writer does (sticky or transient failures, short writes, any schedule), a store
+     that gets as far as the committer — it reports Ok, or the committer's own error — has handed
+     the writer exactly the encoder's output, and the link is the one ComputeLink gives. *)
+  Theorem store_commits_whole latch sk w st lp v c chunks s st' :
+    encoders (lp_codec lp) = Some c -> c_enc c v = Some chunks ->
+    latch || negb (c_werr_ignored c) = true ->
+    store latch sk w st lp v = (s, st') ->
+    so_status s = SOk \/ so_status s = SErr ECommit ->
+    s = {| so_status := so_status s;
+           so_link := so_link (compute hasher_ok hash encoders lp v) |} /\
+    so_status (compute hasher_ok hash encoders lp v) = SOk /\
+    (so_status s = SOk ->
+     exists l, so_link s = Some l /\ st' = put sk st (skey sk l) (concat chunks)).
   Proof.
-    revert used; induction chunks as [|c r IH]; intros used U; cbn [accept concat].
-    - unfold lenN; cbn. lia.
-    - rewrite lenN_app. intros H.
-      destruct (N.leb_spec (used + lenN c) k) as [L|L]; [|reflexivity].
-      specialize (IH (used + lenN c) L ltac:(lia)).
-      destruct (accept (Some k) (used + lenN c) r). exact IH.
+    intros C E M. unfold LinkSys.store, LinkSys.compute. rewrite C, E.
+    destruct (negb (hasher_ok _)); [intros X [S|S]; inversion X; subst; discriminate|].
+    destruct (w_open_err w); [intros X [S|S]; inversion X; subst; discriminate|].
+    destruct (write_all _ _ _ _ _ _ _ _) as [[[wr hs] ee] la] eqn:W.
+    destruct ee; [intros X [S|S]; inversion X; subst; discriminate|]. cbn [orb].
+    destruct (latch && la) eqn:L; [intros X [S|S]; inversion X; subst; discriminate|].
+    destruct (write_all_clean _ _ _ _ _ _ _ _ _ _ M W L) as [-> ->].
+    destruct (build_link _ _) as [l|]; [|intros X [S|S]; inversion X; subst; discriminate].
+    destruct (w_commit_err w); intros X S; inversion X; subst; cbn; repeat split; auto.
+    - intros Z; discriminate.
+    - intros _. eauto.
   Qed.
 
-  (* the full statement for encoders that report write errors: the write failure is returned and
-     nothing is committed *)
-  Theorem store_write_error_partial sk w st lp v c chunks k :
-    codecs (lp_codec lp) = Some c -> hasher_ok (lp_mhtype lp) = true -> w_open_err w = false ->
-    c_werr_ignored c = false ->
+  (* the capacity-limited (sticky) writer: running out of room during the output makes the store
+     fail with the write error and commit nothing *)
+  Theorem store_write_error latch sk w st lp v c chunks k :
+    encoders (lp_codec lp) = Some c -> hasher_ok (lp_mhtype lp) = true -> w_open_err w = false ->
+    latch || negb (c_werr_ignored c) = true ->
     c_enc c v = Some chunks -> w_cap w = Some k -> k < lenN (concat chunks) ->
-    store sk w st lp v = (sfail EIo, st).
+    store latch sk w st lp v = (sfail EIo, st).
   Proof.
-    intros C H O I E K L. unfold LinkSys.store. rewrite C, H, O, E, K, I. cbn [negb].
-    pose proof (accept_overflow k 0 chunks ltac:(lia) ltac:(lia)) as A.
-    destruct (accept (Some k) 0 chunks) as [p f]. cbn in A. subst f. reflexivity.
+    intros C H O M E K L. unfold LinkSys.store. rewrite C, H, O, E, K. cbn [negb].
+    destruct (write_all _ _ _ _ _ _ _ _) as [[[wr hs] ee] la] eqn:W.
+    destruct ee; [reflexivity|]. cbn [orb].
+    destruct (latch && la) eqn:LL; [reflexivity|]. exfalso.
+    destruct (write_all_clean _ _ _ _ _ _ _ _ _ _ M W LL) as [-> _].
+    pose proof (write_all_cap _ _ k _ 0 _ _ _ _ _ _ _ (N.le_0_l k) W). lia.
+  Qed.
+
+  (* a write that fails outright, at any position of the schedule that the encoder reaches *)
+  Theorem store_transient_write_error latch sk w st lp v c pre x post :
+    encoders (lp_codec lp) = Some c -> hasher_ok (lp_mhtype lp) = true -> w_open_err w = false ->
+    latch || negb (c_werr_ignored c) = true ->
+    c_enc c v = Some (pre ++ x :: post) -> w_cap w = None ->
+    nth_error (w_sched w) (length pre) = Some WFail ->
+    so_status (fst (store latch sk w st lp v)) <> SOk /\ snd (store latch sk w st lp v) = st.
+  Proof.
+    intros C H O M E K F.
+    destruct (store latch sk w st lp v) as [s st'] eqn:S. cbn [fst snd].
+    assert (N : so_status s <> SOk).
+    { intros Sok.
+      destruct (store_commits_whole latch sk w st lp v c _ s st' C E M S (or_introl Sok)) as (_ & _ & Hput).
+      clear Hput. revert S. unfold LinkSys.store. rewrite C, H, O, E, K. cbn [negb].
+      destruct (write_all _ _ _ _ _ _ _ _) as [[[wr hs] ee] la] eqn:W.
+      destruct ee; [intros X; inversion X; subst; discriminate|]. cbn [orb].
+      destruct (latch && la) eqn:LL; [intros X; inversion X; subst; discriminate|]. intros _.
+      (* a clean run contradicts the scheduled failure *)
+      clear - M W LL F. revert wr hs F W. generalize (w_sched w) as sched. generalize 0 as used.
+      intros used sched; revert sched used.
+      induction pre as [|p pre IH]; intros sched used wr hs F; cbn [app write_all length] in *.
+      - destruct sched as [|a sched]; [discriminate|]. cbn in F. inversion F; subst a.
+        rewrite andb_false_r. cbn [andb orb negb tl]. destruct (c_werr_ignored c) eqn:I.
+        + cbn in M. rewrite orb_false_r in M. subst latch.
+          destruct (write_all true true None sched used false true post) as [[[w0 h0] e0] l0] eqn:R.
+          intros X; inversion X; subst. cbn in LL. subst.
+          apply write_all_latched in R as [R|R]; discriminate.
+        + intros X; inversion X.
+      - destruct sched as [|a sched]; [discriminate|]. cbn in F.
+        rewrite andb_false_r. cbn [andb orb negb tl].
+        assert (OKc : (let '(w0, h0, e0, l0) := write_all latch (c_werr_ignored c) None sched (used + lenN p) false false (pre ++ x :: post) in
+                       (p ++ w0, p ++ h0, e0, l0)) = (wr, hs, false, la) -> False).
+        { destruct (write_all latch (c_werr_ignored c) None sched (used + lenN p) false false (pre ++ x :: post)) as [[[w0 h0] e0] l0] eqn:R.
+          intros X; inversion X; subst. eapply IH; eauto. }
+        assert (BAD : forall used' q,
+                  (if c_werr_ignored c then
+                     let '(w0, h0, e0, l0) := write_all latch (c_werr_ignored c) None sched used' false true (pre ++ x :: post) in
+                     (q ++ w0, h0, e0, l0)
+                   else (q, [], true, true)) = (wr, hs, false, la) -> False).
+        { intros used' q. destruct (c_werr_ignored c) eqn:I; [|intros X; inversion X].
+          cbn in M. rewrite orb_false_r in M. subst latch.
+          destruct (write_all true true None sched used' false true (pre ++ x :: post)) as [[[w0 h0] e0] l0] eqn:R.
+          intros X; inversion X; subst. cbn in LL. subst.
+          apply write_all_latched in R as [R|R]; discriminate. }
+        destruct a as [| |n].
+        + exact OKc.
+        + intros X. apply (BAD used []). destruct (c_werr_ignored c); [|exact X].
+          destruct (write_all latch true None sched used false true (pre ++ x :: post)) as [[[w0 h0] e0] l0]. exact X.
+        + destruct (lenN p <=? n); [exact OKc|]. apply BAD. }
+    split; [exact N|]. eapply store_atomic; eauto.
   Qed.
 End C06.
 
@@ -301,13 +373,13 @@ Definition sloppy_codec : codec :=
 (* the pinned tree: with an encoder that drops write errors, a store whose writer failed reports
    success and commits the truncated block *)
 Lemma store_write_error_refuted :
-  exists (codecs : N -> option codec) w lp v s st',
-    store toy_ok toy_hash codecs memstore_kind w [] lp v = (s, st') /\
-    w_cap w = Some 1 /\ (exists c chunks, codecs (lp_codec lp) = Some c /\ c_enc c v = Some chunks /\
+  exists (encoders : N -> option codec) w lp v s st',
+    store toy_ok toy_hash encoders false memstore_kind w [] lp v = (s, st') /\
+    w_cap w = Some 1 /\ (exists c chunks, encoders (lp_codec lp) = Some c /\ c_enc c v = Some chunks /\
                                           1 < lenN (concat chunks)) /\
     so_status s = SOk /\ st' <> [].
 Proof.
-  exists (fun _ => Some sloppy_codec), {| w_open_err := false; w_cap := Some 1; w_commit_err := false |},
+  exists (fun _ => Some sloppy_codec), {| w_open_err := false; w_cap := Some 1; w_sched := []; w_commit_err := false |},
     toy_lp, DNull.
   eexists. eexists. split; [vm_compute; reflexivity|].
   split; [reflexivity|]. split; [exists sloppy_codec, [[1]; [2]]; repeat split; vm_compute; reflexivity|].
@@ -320,8 +392,8 @@ Definition lazy_codec : codec :=
   {| c_enc := fun _ => Some [[]]; c_dec := fun _ => Some (DNull, 0, false); c_werr_ignored := false |}.
 
 Lemma sound_needs_consumes_all :
-  exists (codecs : N -> option codec) l chunks,
-    lo_status (fill toy_ok toy_hash codecs false (RStream chunks TEof) l) = SOk /\
+  exists (decoders : N -> option codec) l chunks,
+    lo_status (fill toy_ok toy_hash decoders false (RStream chunks TEof) l) = SOk /\
     verify toy_hash l (concat chunks) = VMismatch.
 Proof.
   exists (fun _ => Some lazy_codec),
@@ -345,7 +417,7 @@ Example precedence_hyp_sat :
 Proof. vm_compute. auto. Qed.
 
 Example store_atomic_hyp_sat :
-  exists s st', store toy_ok toy_hash toy_registry memstore_kind honest_w [] toy_lp DNull = (s, st') /\
+  exists s st', store toy_ok toy_hash toy_registry true memstore_kind honest_w [] toy_lp DNull = (s, st') /\
                 so_status s <> SOk.
 Proof. eexists. eexists. split; [vm_compute; reflexivity|discriminate]. Qed.
 
@@ -356,11 +428,34 @@ Example store_write_error_hyp_sat :
   toy_registry (lp_codec toy_lp) = Some raw_codec /\ toy_ok (lp_mhtype toy_lp) = true /\
   c_werr_ignored raw_codec = false /\ c_enc raw_codec (DBytes [1; 2; 3]) = Some [[1; 2; 3]] /\
   1 < lenN (concat [[1; 2; 3]]) /\
-  store toy_ok toy_hash toy_registry memstore_kind
-        {| w_open_err := false; w_cap := Some 1; w_commit_err := false |} [] toy_lp (DBytes [1; 2; 3])
+  store toy_ok toy_hash toy_registry true memstore_kind
+        {| w_open_err := false; w_cap := Some 1; w_sched := []; w_commit_err := false |} [] toy_lp (DBytes [1; 2; 3])
   = (sfail EIo, []).
 Proof. vm_compute. repeat split; reflexivity. Qed.
 
 Example io_read_hyp_sat :
   load_any toy_ok toy_hash toy_registry FFill false (RStream [[9]; [8; 7]] TErr) toy_link = lfail EIo.
+Proof. vm_compute. reflexivity. Qed.
+
+(* the pinned tree, transient failure: one failing write in the middle (later writes succeed) and
+   an encoder that ignores it — Store reports success for a block with a hole, under a link that
+   is not ComputeLink's *)
+Definition sloppy3_codec : codec :=
+  {| c_enc := fun _ => Some [[1]; [2]; [3]]; c_dec := fun _ => None; c_werr_ignored := true |}.
+
+Lemma store_transient_refuted :
+  let encoders := fun _ : N => Some sloppy3_codec in
+  let w := {| w_open_err := false; w_cap := None; w_sched := [WOk; WFail]; w_commit_err := false |} in
+  exists l st',
+    store toy_ok toy_hash encoders false memstore_kind w [] toy_lp DNull =
+      ({| so_status := SOk; so_link := Some l |}, st') /\
+    lookup st' (skey memstore_kind l) = Some [1; 3] /\
+    so_link (compute toy_ok toy_hash encoders toy_lp DNull) <> Some l.
+Proof. cbv zeta. eexists. eexists. split; [vm_compute; reflexivity|]. split; [vm_compute; reflexivity|]. vm_compute. discriminate. Qed.
+
+(* ... and with the latch the same scenario fails and commits nothing *)
+Example store_transient_hyp_sat :
+  let encoders := fun _ : N => Some sloppy3_codec in
+  let w := {| w_open_err := false; w_cap := None; w_sched := [WOk; WFail]; w_commit_err := false |} in
+  store toy_ok toy_hash encoders true memstore_kind w [] toy_lp DNull = (sfail EIo, []).
 Proof. vm_compute. reflexivity. Qed.
